@@ -31,6 +31,8 @@ R3 (K3) Repository.abort_write_group: once the template _abort_write_group() was
    PackRepository.suspend_write_group clears _write_group.
 R4 (K1, safety net relied on by C01/C03) Repository.unlock, PackRepository.unlock and RemoteRepository.unlock abort a
    live write group before the last write lock is released.
+R7 (K3) RepositoryPackCollection._commit_write_group: every exceptional exit of autopack() / _save_pack_names() after
+   allocate() passes a handler that removes the allocated packs from memory and re-raises.
 Does not decide: that suspend -> resume -> commit yields the same content as a direct commit (value equality).
 """
 
@@ -297,9 +299,33 @@ def run(ctx):
         cleared = any(isinstance(d, ast.Delete) and norm(d) == "del self._resumed_packs[:]" for d in walk_own(fq)) or any(call_attr(c) == "clear" and call_recv(c) == "self._resumed_packs" for c in calls_in(fq))
         ctx.check("R6-resumed-packs-all-handled", f"{PR}:{COLL}.{meth}", cleared, f"{meth} forgets all resumed packs at the end")
 
+    # ---- R7: a commit that fails while publishing forgets what it allocated ---------------------------------------------
+    # RepositoryPackCollection._commit_write_group allocates the finished pack(s) in the in-memory name list and then
+    # publishes (autopack / _save_pack_names).  Every exceptional exit of the publishing calls passes a handler that takes
+    # the allocated packs out of memory again (_remove_pack_from_memory / a pop from _names) and re-raises: otherwise the
+    # next write group committed through the same object lists the aborted pack in pack-names.
+    fn7 = repo.func(PR, "RepositoryPackCollection._commit_write_group")
+    w7 = f"{PR}:RepositoryPackCollection._commit_write_group"
+    pubs7 = [c for c in calls_in(fn7) if call_recv(c) == "self" and call_attr(c) in ("autopack", "_save_pack_names")]
+    allocs7 = [c for c in calls_in(fn7) if call_recv(c) == "self" and call_attr(c) == "allocate"]
+    ctx.require(bool(pubs7) and bool(allocs7), f"{w7}: allocate / publishing calls not found")
+
+    def _forgets(h):
+        return any((call_attr(c) == "_remove_pack_from_memory") or (call_attr(c) in ("pop", "__delitem__") and call_recv(c) == "self._names") for c in calls_in(h)) or any(isinstance(d_, ast.Delete) and any("self._names" in norm(t_) for t_ in d_.targets) for d_ in ast.walk(h))
+
+    uncovered = []
+    for c in pubs7:
+        tries = [t for t in ast.walk(fn7) if isinstance(t, ast.Try) and any(x is c for st in t.body for x in ast.walk(st))]
+        ok_h = any(h.type is None or any(k in norm(h.type) for k in ("BaseException", "Exception")) for t in tries for h in t.handlers if _forgets(h) and any(isinstance(r, ast.Raise) and r.exc is None for r in ast.walk(h)))
+        if not ok_h:
+            uncovered.append(f"L{c.lineno}:{norm(c)}")
+    ctx.check("R7-failed-publication-forgets-allocation", w7, not uncovered and min(c.lineno for c in pubs7) > max(c.lineno for c in allocs7), "a failure of autopack() / _save_pack_names() after allocate() passes a handler that removes the allocated packs from memory and re-raises", construct="; ".join(uncovered), message=f"_commit_write_group lets a failure of {uncovered} propagate with the new pack still allocated in memory: the write group is aborted, but the next write group committed through the same repository object writes that pack into pack-names — the revision of a commit that raised becomes visible")
+
+
 MUTANTS = [
+    Mutant("failed publication keeps the allocation", PR, "                for pack in allocated:\n                    current = self._packs_by_name.get(pack.name)\n                    if current is not None and pack.name in self._names:\n                        self._remove_pack_from_memory(current)\n                raise\n", "                raise\n", expect="R7-failed-publication-forgets-allocation"),
     Mutant("key dependencies cleared in a finally", PR, "        hint = self._pack_collection._commit_write_group()\n        self.revisions._index.clear_key_dependencies()\n", "        try:\n            hint = self._pack_collection._commit_write_group()\n        finally:\n            self.revisions._index.clear_key_dependencies()\n", expect="R6-refusal-keeps-tracking"),
-    Mutant("resumed packs removed while iterating", PR, "            self.allocate(resumed_pack)\n            any_new_content = True\n        del self._resumed_packs[:]\n", "            self.allocate(resumed_pack)\n            self._resumed_packs.remove(resumed_pack)\n            any_new_content = True\n", expect="R6-resumed-packs-all-handled"),
+    Mutant("resumed packs removed while iterating", PR, "            allocated.append(resumed_pack)\n            any_new_content = True\n        del self._resumed_packs[:]\n", "            allocated.append(resumed_pack)\n            self._resumed_packs.remove(resumed_pack)\n            any_new_content = True\n", expect="R6-resumed-packs-all-handled"),
     Mutant("_check_new_inventories after finish", PR, "        problems = self._check_new_inventories()\n        if problems:\n            problems_summary = \"\\n\".join(problems)\n            raise BzrCheckError(\n                \"Cannot add revision(s) to repository: \" + problems_summary\n            )\n        self._remove_pack_indices(self._new_pack)\n", "        self._remove_pack_indices(self._new_pack)\n        problems = self._check_new_inventories()\n        if problems:\n            problems_summary = \"\\n\".join(problems)\n            raise BzrCheckError(\n                \"Cannot add revision(s) to repository: \" + problems_summary\n            )\n", expect="R1-check-before-change"),
     Mutant("missing compression parents only logged", PR, "        if all_missing:\n            raise BzrCheckError(", "        if all_missing and debug.debug_flag_enabled(\"strict\"):\n            raise BzrCheckError(", expect="R1-refuse-missing-parents"),
     Mutant("abort skips resumed packs", PR, "                resumed_pack.abort()\n        del self._resumed_packs[:]\n\n    def _remove_resumed_pack_indices", "                pass\n        del self._resumed_packs[:]\n\n    def _remove_resumed_pack_indices", expect="R2-abort-resumed"),
